@@ -246,6 +246,6 @@ func replayC14(c *Ctx, w *Witness) error {
 	if len(w.Strs) == 2 {
 		kind, why = w.Strs[0], w.Strs[1]
 	}
-	judgeMutant(c, w.Text, true, kind, why, "g_replay_"+w.Key()[:8], false)
+	judgeMutant(c, w.SourceText(), true, kind, why, "g_replay_"+w.Key()[:8], false)
 	return nil
 }
